@@ -1335,8 +1335,25 @@ pub fn run(out: &mut Out, rng: &mut Rng, thorough: bool) {
         let mut w = if df == 20 { surv_prefix(rng, 20, k, s(a)) } else { let q = rand_squawk(rng); surv_prefix(rng, 21, "s", q) };
         w.push(s("pos"));
         let tc = tc_airborne(rng);
-        w.extend(pos_fields(rng, tc, k2, a2));
+        let pf = pos_fields(rng, tc, k2, a2);
+        w.extend(pf.clone());
         cases.push(w);
+        // the SAME MB field right afterwards under another header altitude (and, one time in three, once more under
+        // the matching one): the label must follow the header of the reply at hand, not what was inferred for this
+        // payload a moment ago (a decoder that remembers the inference per payload labels the second reply wrongly)
+        if same && df == 20 && i % 4 == 0 {
+            let (k3, a3) = rand_alt(rng);
+            let mut w2 = surv_prefix(rng, 20, k3, s(a3));
+            w2.push(s("pos"));
+            w2.extend(pf.clone());
+            cases.push(w2);
+            if i % 12 == 0 {
+                let mut w3 = surv_prefix(rng, 20, k, s(a));
+                w3.push(s("pos"));
+                w3.extend(pf);
+                cases.push(w3);
+            }
+        }
     }
 
     // ---- air-air surveillance replies DF 0 / DF 16: all 2^11 25-ft codes and all 1280 Gillham steps in the AC field
